@@ -14,7 +14,7 @@ pub const RULE: &str = "case = history of 1..40 steps over {pointer(x, y, button
 pub enum Step {
     Pointer { x: u16, y: u16, button: u8, down: bool, lenient: bool },
     Key { code: u16, down: bool, lenient: bool },
-    Unsendable,
+    Unsendable { lenient: bool },
     ServerBitmap,
     ServerError(u32),
 }
@@ -42,7 +42,7 @@ pub fn run(c: &Case) -> Outcome {
     if c.steps.iter().any(|s| matches!(s, Step::ServerBitmap | Step::ServerError(_))) {
         out.label("interleaved-server-traffic");
     }
-    if c.steps.iter().any(|s| matches!(s, Step::Unsendable)) {
+    if c.steps.iter().any(|s| matches!(s, Step::Unsendable { .. })) {
         out.label("unsendable");
     }
     let (mut conn, h) = match mem::activated_session(&ClientCfg::simple(), ServerProfile::simple(c.user_id, c.share_id)) {
@@ -87,12 +87,12 @@ pub fn run(c: &Case) -> Outcome {
                     }
                 }
             }
-            Step::Unsendable => {
+            Step::Unsendable { lenient } => {
                 let ev = RdpEvent::Bitmap(BitmapEvent { dest_left: 0, dest_top: 0, dest_right: 0, dest_bottom: 0, width: 1, height: 1, bpp: 32, is_compress: false, data: vec![0; 4] });
-                let (r, _) = call(|| conn.client.write(ev));
+                let (r, _) = call(|| if *lenient { conn.client.try_write(ev) } else { conn.client.write(ev) });
                 match r {
                     Res::Ok(()) => {
-                        out.fail("input:unsendable-accepted", format!("step #{}: write(RdpEvent::Bitmap) returned Ok", i));
+                        out.fail(if *lenient { "input:unsendable-accepted:try_write" } else { "input:unsendable-accepted:write" }, format!("step #{}: {}(RdpEvent::Bitmap) returned Ok on an active session", i, if *lenient { "try_write" } else { "write" }));
                         return out;
                     }
                     Res::Err(_) => {}
@@ -205,7 +205,7 @@ pub fn decode(s: &mut Src) -> Case {
     let n = 1 + s.below(40);
     let steps = (0..n)
         .map(|_| match s.below(12) {
-            0 => Step::Unsendable,
+            0 => Step::Unsendable { lenient: s.bool() },
             1 => Step::ServerBitmap,
             2 => Step::ServerError(s.b32()),
             3 | 4 | 5 => Step::Key { code: s.b16(), down: s.bool(), lenient: s.chance(64) },
